@@ -15,6 +15,7 @@ class C01Facade(Harness):
     prop = "C01"
     group = "h1"
     bounds_doc = "N data values (NaN-able reals), M bins (edges | pairs | StaticBinning), weights none/int/real, dtype, keep_missed"
+    assumptions_doc = ("C01 dtype=float32 instances: weights are integers <= 2000 or multiples of 0.25 <= 500, so that squares and sums are exact in binary32 (binary32 rounding is not modelled)",)
 
     def instances(self, tier):
         if tier == "quick":
@@ -41,8 +42,11 @@ class C01Facade(Harness):
         if p.get("layout"):
             return self._declare_layout(cx, p)
         x = {"v": cx.reals("v", N, nan=p["nan"])}
+        f32 = p["dtype"] == "float32"  # binary32 rounding is not modelled: weights whose squares and sums are exact in binary32
         if p["weights"] == "int":
-            x["w"] = cx.ints("w", N, lo=0)
+            x["w"] = cx.ints("w", N, lo=0, hi=(2000 if f32 else None))
+        elif p["weights"] == "real" and f32:
+            x["w"] = [k * 0.25 for k in cx.ints("wq", N, lo=0, hi=2000)]
         elif p["weights"] == "real":
             x["w"] = cx.reals("w", N)
             if cx.sym:
